@@ -443,6 +443,17 @@ def formula(node):
         return ("not", formula(node.operand))
     if isinstance(node, ast.Constant):
         return ("const", bool(node.value))
+    if isinstance(node, ast.Compare) and len(node.ops) == 1 and isinstance(node.left, ast.Constant) and isinstance(node.comparators[0], ast.Constant) \
+            and type(node.left.value) in (int, float, str, bool) and type(node.comparators[0].value) in (int, float, str, bool):
+        a, b, o = node.left.value, node.comparators[0].value, node.ops[0]
+        try:
+            v = {ast.Eq: a == b, ast.NotEq: a != b}.get(type(o))
+            if v is None and type(a) in (int, float) and type(b) in (int, float):
+                v = {ast.Lt: a < b, ast.LtE: a <= b, ast.Gt: a > b, ast.GtE: a >= b}.get(type(o))
+            if v is not None:
+                return ("const", bool(v))
+        except Exception:
+            pass
     if isinstance(node, ast.Compare) and len(node.ops) == 1:
         op, l, r = node.ops[0], node.left, node.comparators[0]
         # len(x) == 0 / len(x) > 0 ... are the truth value of a sized container
@@ -1067,6 +1078,10 @@ class Summariser:
                     b.cond.append((f, False))
                 outs.extend(self._seq(s.orelse, [b], in_loop))
             return outs
+        if isinstance(s, (ast.For, ast.AsyncFor)) and isinstance(s.iter, ast.Call) and not s.orelse:
+            spliced = self._splice_generator(s, p)
+            if spliced is not None:
+                return self._seq(spliced, [p], in_loop)
         if isinstance(s, (ast.For, ast.AsyncFor)):
             itn0 = norm_expr(s.iter, p.env)
             itn = itn0 if _const_coll(itn0) else self._ev(p, s.iter)
@@ -1125,6 +1140,10 @@ class Summariser:
                 if q.exit is None:
                     q.trace.append(("endwith",))
             return outs
+        if isinstance(s, ast.Try) and s.handlers and not s.finalbody and not s.orelse and all(
+                len(h.body) == 1 and isinstance(h.body[0], ast.Raise) and h.body[0].exc is None for h in s.handlers):
+            # every handler only re-raises: the try statement is its body
+            return self._seq(s.body, [p], in_loop)
         if isinstance(s, ast.Try):
             self.ntry += 1
             k = self.ntry
@@ -1208,6 +1227,68 @@ class Summariser:
                 res.extend(self._unswitch(outer, Table(sel), loop))
             return res
         return [(p, sub)]
+
+    def _splice_generator(self, loop, p):
+        """`for T in helper(args): BODY` where helper is a generator only this side has: the helper's statements with every `yield E`
+        replaced by `T = E; BODY` (and `yield from X` by `for T in X: BODY`); None when that is not a faithful rewriting"""
+        h, is_method = self._resolve_helper(loop.iter)
+        if h is None or self.inline_depth >= 2:
+            return None
+        ys = [n for n in ast.walk(h) if isinstance(n, (ast.Yield, ast.YieldFrom))]
+        if not ys:
+            return None
+        if any(isinstance(n, ast.Return) for n in ast.walk(h)):
+            return None
+        for st in loop.body:
+            for n in ast.walk(st):
+                if isinstance(n, (ast.Break, ast.Continue, ast.Return)):
+                    return None         # they would bind to the helper's own loops
+        call = loop.iter
+        if any(isinstance(a, ast.Starred) for a in call.args) or any(k.arg is None for k in call.keywords):
+            return None
+        bind = self._bind(h, is_method, list(call.args), {k.arg: k.value for k in call.keywords})
+        if bind is None:
+            return None
+        ok = [True]
+
+        class T(ast.NodeTransformer):
+            def visit_Expr(self, node):
+                v = node.value
+                if isinstance(v, ast.Yield):
+                    return [ast.Assign([copy.deepcopy(loop.target)], v.value if v.value is not None else ast.Constant(None))] + copy.deepcopy(loop.body)
+                if isinstance(v, ast.YieldFrom):
+                    return ast.For(copy.deepcopy(loop.target), v.value, copy.deepcopy(loop.body), [])
+                if any(isinstance(x, (ast.Yield, ast.YieldFrom)) for x in ast.walk(node)):
+                    ok[0] = False
+                return node
+
+            def visit_Assign(self, node):
+                if any(isinstance(x, (ast.Yield, ast.YieldFrom)) for x in ast.walk(node)):
+                    ok[0] = False
+                return node
+
+            def visit_FunctionDef(self, node):
+                return node
+        body = [T().visit(copy.deepcopy(st)) for st in h.body]
+        flat = []
+        for b in body:
+            flat.extend(b if isinstance(b, list) else [b])
+        if not ok[0]:
+            return None
+        pre = [ast.Assign([ast.Name(k, ast.Store())], v) for k, v in bind.items()]
+        out = pre + flat
+        for n in out:
+            ast.fix_missing_locations(n)
+        # locals of the helper that its own loops carry from one iteration to the next stay opaque
+        for n in flat:
+            for lp in ast.walk(n):
+                if isinstance(lp, (ast.While, ast.For)):
+                    for x in ast.walk(lp):
+                        if isinstance(x, ast.Name) and isinstance(x.ctx, ast.Store):
+                            self.carried = self.carried | {x.id}
+        tn = {x.id for x in ast.walk(loop.target) if isinstance(x, ast.Name)}
+        self.carried = self.carried - tn
+        return out
 
     def _split_conditional(self, p, vn, depth=0):
         """[(path, value)]: a value `a if c else b` (already evaluated) decides c on the path"""
